@@ -118,18 +118,22 @@ Definition status_changed (a b : list (Z * vrec)) (v : Z) : bool :=
   | None, Some _ => true
   | _, _ => false end.
 
-(* per-block bookkeeping of the checker (all from observations): status at the start of the block,
-   which operation put a validator into the removing queue, made it active, made it non-active *)
-Record chk := mkChk { ck_start : list (Z * vrec); ck_rm_by : list (Z * string); ck_act_by : list (Z * string);
-                      ck_deact_by : list (Z * string); ck_last_rm : option Z }.
+(* per-block bookkeeping of the checker (all from observations): status at the start of the block and,
+   per validator, the last operation of this block that had an effect on it (status, or membership in
+   one of the three queues) together with the effective operation before that one.  A violation is
+   named  <clause>:<last effective op>[:after-<the one before>]:<status at block start>. *)
+Record chk := mkChk { ck_start : list (Z * vrec); ck_eff : list (Z * (string * option string)); ck_last_rm : option Z }.
 
 Definition start_name (c : chk) (v : Z) : string :=
   match lookup v (ck_start c) with Some r => status_name (v_status r) | None => "NEW" end.
-Definition label_in (c : chk) (tbl : list (Z * string)) (v : Z) : string :=
-  (match lookup v tbl with Some l => l | None => "none" end) ++ ":" ++ start_name c v.
-Definition label_of_key (c : chk) (tbl : list (Z * string)) (vals : list (Z * vrec)) (k : Z) : string :=
+Definition label_in (c : chk) (v : Z) : string :=
+  (match lookup v (ck_eff c) with
+   | Some (l, Some p) => l ++ ":after-" ++ p
+   | Some (l, None) => l
+   | None => "none" end) ++ ":" ++ start_name c v.
+Definition label_of_key (c : chk) (vals : list (Z * vrec)) (k : Z) : string :=
   match vals_with_key vals k with
-  | [v] => label_in c tbl v
+  | [v] => label_in c v
   | [] => "unknown-key"
   | _ => "shared-consensus-key"
   end.
@@ -143,9 +147,9 @@ Definition end_block_clauses (c : chk) (s s' : state) (b : obs) : list string :=
     let vals := st_vals s' in
     let cs := st_cset s in
     let keys := map fst ups in
-    let c_dup := map (fun k => "dup-update:" ++ (match vals_with_key vals k with [_] => "same-validator-queued-twice" | [] => "unknown-key" | _ => "shared-consensus-key" end)) (dup_keys keys) in
+    let c_dup := map (fun k => "dup-update:" ++ label_of_key c vals k) (dup_keys keys) in
     let c_neg := if existsb (fun u => (snd u <? 0)%Z) ups then ["negative-power"] else [] in
-    let c_abs := map (fun u => "absent-removal:" ++ label_of_key c (ck_rm_by c) vals (fst u))
+    let c_abs := map (fun u => "absent-removal:" ++ label_of_key c vals (fst u))
                      (filter (fun u => (snd u =? 0)%Z && negb (smem (fst u) cs)) ups) in
     let removed := filter (fun u => (snd u =? 0)%Z) ups in
     let c_pow := if forallb (fun e => (snd e =? 1)%Z) set && forallb (fun u => (snd u =? 0)%Z || (snd u =? 1)%Z) ups then [] else ["power-not-one"] in
@@ -154,9 +158,9 @@ Definition end_block_clauses (c : chk) (s s' : state) (b : obs) : list string :=
       if applied then
         let act := filter (fun e => is_active (v_status (snd e))) vals in
         let setk := map fst set in
-        let c_a := map (fun e => "active-not-in-set:" ++ label_of_key c (ck_act_by c) vals (v_cons (snd e)))
+        let c_a := map (fun e => "active-not-in-set:" ++ label_of_key c vals (v_cons (snd e)))
             (filter (fun e => negb (smem (v_cons (snd e)) setk)) act) in
-        let c_b := map (fun k => "in-set-not-active:" ++ label_of_key c (ck_deact_by c) vals k)
+        let c_b := map (fun k => "in-set-not-active:" ++ label_of_key c vals k)
             (filter (fun k => negb (existsb (fun e => (v_cons (snd e) =? k)%Z) act)) setk) in
         (c_a ++ c_b ++ c_pow)%list
       else
@@ -164,8 +168,8 @@ Definition end_block_clauses (c : chk) (s s' : state) (b : obs) : list string :=
         if (Nat.eqb (List.length removed) (List.length cs)) && forallb (fun u => (snd u =? 0)%Z) ups
         then ["empty-set:" ++ match ck_last_rm c with
                               | Some v => match lookup v vals with
-                                          | Some r => label_of_key c (ck_rm_by c) vals (v_cons r)
-                                          | None => label_in c (ck_rm_by c) v end
+                                          | Some r => label_of_key c vals (v_cons r)
+                                          | None => label_in c v end
                               | None => "none" end]
         else ["not-applied"]
     | l => l
@@ -174,19 +178,23 @@ Definition end_block_clauses (c : chk) (s s' : state) (b : obs) : list string :=
   | _, _ => ["endblock-unobserved"]
   end.
 
+(* validators on which the step had an effect *)
+Definition affected (s s' : state) : list Z :=
+  let ids := fold_left (fun a v => sadd v a)
+               (map fst (st_vals s') ++ map fst (st_pend s) ++ map fst (st_pend s'))%list [] in
+  filter (fun v => status_changed (st_vals s) (st_vals s') v
+                   || negb (Bool.eqb (smem v (st_rm s)) (smem v (st_rm s')))
+                   || negb (Bool.eqb (smem v (st_re s)) (smem v (st_re s')))
+                   || negb (Bool.eqb (smem v (map fst (st_pend s))) (smem v (map fst (st_pend s'))))) ids.
+
 Definition chk_next (c : chk) (s s' : state) (o : op) : chk :=
   match o with
-  | ONewBlock _ | OEndBlock => mkChk (st_vals s') [] [] [] None
+  | ONewBlock _ | OEndBlock => mkChk (st_vals s') [] None
   | _ =>
     let lbl := op_label o in
     let enq := filter (fun v => negb (smem v (st_rm s))) (st_rm s') in
-    let to_act := filter (fun e : Z * vrec => is_active (v_status (snd e)) && status_changed (st_vals s) (st_vals s') (fst e)) (st_vals s') in
-    let from_act := filter (fun e : Z * vrec => negb (is_active (v_status (snd e))) &&
-                             match lookup (fst e) (st_vals s) with Some r => is_active (v_status r) | None => false end) (st_vals s') in
     mkChk (ck_start c)
-          (fold_left (fun a v => upd v lbl a) enq (ck_rm_by c))
-          (fold_left (fun a (e : Z * vrec) => upd (fst e) lbl a) to_act (ck_act_by c))
-          (fold_left (fun a (e : Z * vrec) => upd (fst e) lbl a) from_act (ck_deact_by c))
+          (fold_left (fun a v => upd v (lbl, option_map fst (lookup v a)) a) (affected s s') (ck_eff c))
           (match rev enq with v :: _ => Some v | [] => ck_last_rm c end)
   end.
 
@@ -201,7 +209,7 @@ Fixpoint c05_clauses (cfg : config) (c : chk) (s : state) (l : list (op * obs)) 
 
 Definition case_clauses (c : c05_case) : list string :=
   match c with Case ci steps =>
-    match nth_error cfgs ci with None => ["cfg"] | Some cfg => c05_clauses cfg (mkChk (st_vals init) [] [] [] None) init steps end end.
+    match nth_error cfgs ci with None => ["cfg"] | Some cfg => c05_clauses cfg (mkChk (st_vals init) [] None) init steps end end.
 Fixpoint violations_from (n : nat) (cs : list c05_case) : list (nat * list string) :=
   match cs with [] => [] | c :: r =>
     match case_clauses c with [] => violations_from (S n) r | cl => (n, cl) :: violations_from (S n) r end end.
